@@ -33,7 +33,7 @@ type spec struct {
 }
 
 var writeKinds = []string{"insert", "insert", "update", "delete", "bulk", "bulk-big", "create-table", "drop-table", "create-index", "drop-index", "alter", "vacuum", "incr-vacuum", "delete-all", "update-grow"}
-var readKinds = []string{"select", "select", "indexed", "rowid", "columns", "low-scan", "low-tables", "low-schema", "repeat", "pk"}
+var readKinds = []string{"select", "select", "indexed", "rowid", "columns", "low-scan", "low-tables", "low-schema", "low-all", "repeat", "pk"}
 
 func TestC08History(t *testing.T) {
 	vt.Exec(t, vt.Check[spec]{
@@ -331,10 +331,20 @@ func run(r *vt.Run, t vt.TB, s spec) {
 				continue
 			}
 			tmc := tm
-			cols := append([]string{}, tm.cols...)
 			kind := o.Kind
 			b := o.B
 			read := func() (string, bool) {
+				// (evaluated when the read runs: a repeated read may come after DDL)
+				cols := append([]string{}, tmc.cols...)
+				dropped := true
+				for _, x := range tables {
+					if x == tmc {
+						dropped = false
+					}
+				}
+				if dropped {
+					return "", true
+				}
 				sel := strings.Join(cols, ", ")
 				switch kind {
 				case "select":
@@ -412,76 +422,83 @@ func run(r *vt.Run, t vt.TB, s spec) {
 				}
 				afterRead("hi")
 			}
-		case "low-scan", "low-tables", "low-schema":
+		case "low-scan", "low-tables", "low-schema", "low-all":
 			if err := lo.RLock(); err != nil {
 				fail("lock-error", "RLock: %v", err)
 				return
 			}
 			ok := func() bool {
 				defer lo.RUnlock()
-				switch o.Kind {
-				case "low-tables":
-					got, err := lo.Tables()
-					var want []string
-					for _, row := range query("SELECT name FROM sqlite_master WHERE type='table' ORDER BY rowid") {
-						want = append(want, strings.ToLower(string(row[0].B)))
-					}
-					if err != nil || strings.Join(got, ",") != strings.Join(want, ",") {
-						fail("stale-schema", "low-level Tables() = %v, %v; SQLite has %v", got, err, want)
-						return false
-					}
-					idx, err := lo.Indexes()
-					want = nil
-					for _, row := range query("SELECT name FROM sqlite_master WHERE type='index' ORDER BY rowid") {
-						want = append(want, strings.ToLower(string(row[0].B)))
-					}
-					if err != nil || strings.Join(idx, ",") != strings.Join(want, ",") {
-						fail("stale-schema", "low-level Indexes() = %v, %v; SQLite has %v", idx, err, want)
-						return false
-					}
-				case "low-schema":
-					if tm == nil {
-						return true
-					}
-					sch, err := lo.Schema(tm.name)
-					if err != nil {
-						fail("stale-schema", "low-level Schema(%s): %v", tm.name, err)
-						return false
-					}
-					var got []string
-					for _, c := range sch.Columns {
-						got = append(got, c.Column)
-					}
-					var ix []string
-					for _, i := range sch.Indexes {
-						if !strings.HasPrefix(i.Index, "sqlite_autoindex") {
-							ix = append(ix, i.Index)
+				kinds := []string{o.Kind}
+				if o.Kind == "low-all" {
+					// several reads inside one read transaction
+					kinds = []string{"low-schema", "low-scan", "low-tables", "low-scan"}
+				}
+				for _, kind := range kinds {
+					switch kind {
+					case "low-tables":
+						got, err := lo.Tables()
+						var want []string
+						for _, row := range query("SELECT name FROM sqlite_master WHERE type='table' ORDER BY rowid") {
+							want = append(want, strings.ToLower(string(row[0].B)))
 						}
-					}
-					if strings.Join(got, ",") != strings.Join(tm.cols, ",") || strings.Join(ix, ",") != strings.Join(tm.indexes, ",") {
-						fail("stale-schema", "low-level Schema(%s): columns %v indexes %v; the table has %v and %v", tm.name, got, ix, tm.cols, tm.indexes)
-						return false
-					}
-				default:
-					if tm == nil || tm.kind == 2 {
-						return true
-					}
-					tab, err := lo.Table(tm.name)
-					if err != nil {
-						fail("stale-schema", "low-level Table(%s): %v", tm.name, err)
-						return false
-					}
-					want := query(fmt.Sprintf("SELECT rowid FROM %s ORDER BY rowid", tm.name))
-					var got []int64
-					err = tab.Scan(func(rowid int64, rec sdb.Record) bool { got = append(got, rowid); return false })
-					if err != nil || len(got) != len(want) {
-						fail("stale-or-wrong-rows", "low-level Table.Scan(%s): %d rows, %v; SQLite has %d", tm.name, len(got), err, len(want))
-						return false
-					}
-					for i := range want {
-						if got[i] != want[i][0].I {
-							fail("stale-or-wrong-rows", "low-level Table.Scan(%s): row %d has rowid %d, SQLite %d", tm.name, i, got[i], want[i][0].I)
+						if err != nil || strings.Join(got, ",") != strings.Join(want, ",") {
+							fail("stale-schema", "low-level Tables() = %v, %v; SQLite has %v", got, err, want)
 							return false
+						}
+						idx, err := lo.Indexes()
+						want = nil
+						for _, row := range query("SELECT name FROM sqlite_master WHERE type='index' ORDER BY rowid") {
+							want = append(want, strings.ToLower(string(row[0].B)))
+						}
+						if err != nil || strings.Join(idx, ",") != strings.Join(want, ",") {
+							fail("stale-schema", "low-level Indexes() = %v, %v; SQLite has %v", idx, err, want)
+							return false
+						}
+					case "low-schema":
+						if tm == nil {
+							continue
+						}
+						sch, err := lo.Schema(tm.name)
+						if err != nil {
+							fail("stale-schema", "low-level Schema(%s): %v", tm.name, err)
+							return false
+						}
+						var got []string
+						for _, c := range sch.Columns {
+							got = append(got, c.Column)
+						}
+						var ix []string
+						for _, i := range sch.Indexes {
+							if !strings.HasPrefix(i.Index, "sqlite_autoindex") {
+								ix = append(ix, i.Index)
+							}
+						}
+						if strings.Join(got, ",") != strings.Join(tm.cols, ",") || strings.Join(ix, ",") != strings.Join(tm.indexes, ",") {
+							fail("stale-schema", "low-level Schema(%s): columns %v indexes %v; the table has %v and %v", tm.name, got, ix, tm.cols, tm.indexes)
+							return false
+						}
+					default:
+						if tm == nil || tm.kind == 2 {
+							continue
+						}
+						tab, err := lo.Table(tm.name)
+						if err != nil {
+							fail("stale-schema", "low-level Table(%s): %v", tm.name, err)
+							return false
+						}
+						want := query(fmt.Sprintf("SELECT rowid FROM %s ORDER BY rowid", tm.name))
+						var got []int64
+						err = tab.Scan(func(rowid int64, rec sdb.Record) bool { got = append(got, rowid); return false })
+						if err != nil || len(got) != len(want) {
+							fail("stale-or-wrong-rows", "low-level Table.Scan(%s): %d rows, %v; SQLite has %d", tm.name, len(got), err, len(want))
+							return false
+						}
+						for i := range want {
+							if got[i] != want[i][0].I {
+								fail("stale-or-wrong-rows", "low-level Table.Scan(%s): row %d has rowid %d, SQLite %d", tm.name, i, got[i], want[i][0].I)
+								return false
+							}
 						}
 					}
 				}
